@@ -387,6 +387,8 @@ def impl_recv_memsock(msock, case):
             for r in rs.recv():
                 if isinstance(r, int):
                     y += 1
+                    if y > 20000:
+                        raise RuntimeError('no termination')
                 else:
                     res = r
                     break
@@ -732,3 +734,181 @@ def spec_messages(ty, stream):
 
 def feed_case_lit(records, impl):
     return '(%s, %s, %s)' % (pairs_lit(records), pairs_lit(impl['msgs']), pairs_lit(impl['bufs']))
+
+
+# ------------------------------------------------------------------------------------------
+# unit level: AsyncStateMachine with scripted generators
+class GenBoom(Exception):
+    pass
+
+
+def gen_from(steps):
+    for s in steps:
+        if s[0] == 'Y':
+            yield s[1]
+        else:
+            raise GenBoom()
+
+
+def gen_asm_case(rng):
+    def g(ok=None):
+        ok = rng.random() < 0.8 if ok is None else ok
+        steps = [('Y', rng.choice([0, 1])) for _ in range(rng.choice([0, 1, 2, 3, 6]))]
+        if not ok:
+            steps.insert(rng.randrange(len(steps) + 1), rng.choice([('Y', 5), ('R',), ('Y', 2)]))
+        return steps
+
+    def reader():
+        steps = [('Y', rng.choice([0, 1])) for _ in range(rng.choice([0, 1, 2]))]
+        r = rng.random()
+        if r < 0.8:
+            steps.append(('Y', rng.choice([7, 42, 1000])))        # the data
+        elif r < 0.9:
+            steps.append(('R',))
+        return steps
+    calls = []
+    for _ in range(rng.randrange(1, 14)):
+        k = rng.choice(['hs', 'cl', 'wr', 'rd', 'rd', 'rd', 'we', 'we', 'we'])
+        if k in ('hs', 'cl', 'wr'):
+            calls.append((k, g()))
+        elif k == 'rd':
+            calls.append(('rd', reader()))
+        else:
+            calls.append(('we',))
+    return dict(calls=calls)
+
+
+def impl_asm(case):
+    from tlslite.integration.asyncstatemachine import AsyncStateMachine
+
+    class Conn(object):
+        nxt = None
+
+        def readAsync(self, n):
+            return gen_from(self.nxt)
+
+        def closeAsync(self):
+            return gen_from(self.nxt)
+
+        def writeAsync(self, b):
+            return gen_from(self.nxt)
+
+    class M(AsyncStateMachine):
+        def __init__(self):
+            AsyncStateMachine.__init__(self)
+            self.tlsConnection = Conn()
+            self.ev = []
+
+        def outConnectEvent(self):
+            self.ev.append(('connect',))
+
+        def outCloseEvent(self):
+            self.ev.append(('close',))
+
+        def outReadEvent(self, b):
+            self.ev.append(('read', b))
+
+        def outWriteEvent(self):
+            self.ev.append(('write',))
+    m = M()
+    obs = []
+    for c in case['calls']:
+        m.ev = []
+        exn = None
+        try:
+            if c[0] == 'hs':
+                m.setHandshakeOp(gen_from(c[1]))
+            elif c[0] == 'cl':
+                m.tlsConnection.nxt = c[1]
+                m.setCloseOp()
+            elif c[0] == 'wr':
+                m.tlsConnection.nxt = c[1]
+                m.setWriteOp(b'x')
+            elif c[0] == 'rd':
+                m.tlsConnection.nxt = c[1]
+                m.inReadEvent()
+            else:
+                m.inWriteEvent()
+        except AssertionError:
+            exn = 'assert'
+        except GenBoom:
+            exn = 'gen'
+        except StopIteration:
+            exn = 'stop'
+        obs.append((list(m.ev), exn, m.wantsReadEvent(), m.wantsWriteEvent()))
+    return obs
+
+
+def gen_lit(steps):
+    return listlit(steps, lambda s: 'GY %s' % zlit(s[1]) if s[0] == 'Y' else 'GRaise')
+
+
+def asm_case_lit(case, obs):
+    def call(c):
+        if c[0] == 'hs':
+            return 'SetHandshake %s' % gen_lit(c[1])
+        if c[0] == 'cl':
+            return 'SetClose %s' % gen_lit(c[1])
+        if c[0] == 'wr':
+            return 'SetWrite %s' % gen_lit(c[1])
+        if c[0] == 'rd':
+            return 'InRead %s' % gen_lit(c[1])
+        return 'InWrite'
+
+    def ev(e):
+        return {'connect': 'EConnect', 'close': 'EClose', 'write': 'EWrite'}.get(e[0]) or 'ERead %s' % zlit(e[1])
+
+    def ob(o):
+        ob_ = lambda v: 'None' if v is None else '(Some %s)' % boollit(v)  # noqa
+        x = 'None' if o[1] is None else '(Some %s)' % {'assert': 'XAssert', 'gen': 'XGen', 'stop': 'XStop'}[o[1]]
+        return '(%s, %s, %s, %s)' % (listlit(o[0], ev), x, ob_(o[2]), ob_(o[3]))
+    return '(%s, %s)' % (listlit(case['calls'], call), listlit(obs, ob))
+
+
+# ------------------------------------------------------------------------------------------
+# single_io_path: every socket read/write of L3-L5 goes through the modelled functions
+IO_FILES = ['tlslite/recordlayer.py', 'tlslite/tlsrecordlayer.py', 'tlslite/tlsconnection.py',
+            'tlslite/bufferedsocket.py', 'tlslite/messagesocket.py', 'tlslite/integration/asyncstatemachine.py']
+IO_EXPECTED = sorted([
+    ('tlslite/recordlayer.py', 'RecordSocket._sockSendAll', 'self.sock.send'),
+    ('tlslite/recordlayer.py', 'RecordSocket._sockRecvAll', 'self.sock.recv'),
+    ('tlslite/bufferedsocket.py', 'BufferedSocket.send', 'self.socket.send'),
+    ('tlslite/bufferedsocket.py', 'BufferedSocket.sendall', 'self.socket.sendall'),
+    ('tlslite/bufferedsocket.py', 'BufferedSocket.flush', 'self.socket.sendall'),
+    ('tlslite/bufferedsocket.py', 'BufferedSocket.recv', 'self.socket.recv'),
+])
+
+
+def io_sites(repo):
+    """(file, Class.function, dotted callee) of every call x.sock.send/recv/sendall/recv_into/sendto,
+    x.socket.<same>, found by walking the ast."""
+    import ast
+    import os
+    out = []
+    for rel in IO_FILES:
+        with open(os.path.join(repo, rel)) as f:
+            tree = ast.parse(f.read())
+
+        def dotted(n):
+            if isinstance(n, ast.Attribute):
+                b = dotted(n.value)
+                return None if b is None else b + '.' + n.attr
+            if isinstance(n, ast.Name):
+                return n.id
+            return None
+
+        def walk(node, scope):
+            for ch in ast.iter_child_nodes(node):
+                sc = scope
+                if isinstance(ch, (ast.ClassDef, ast.FunctionDef)):
+                    sc = scope + [ch.name]
+                if isinstance(ch, ast.Call):
+                    d = dotted(ch.func)
+                    if d:
+                        parts = d.split('.')
+                        if parts[-1] in ('send', 'recv', 'sendall', 'recv_into', 'sendto', 'recvfrom') and \
+                                len(parts) >= 2 and parts[-2] in ('sock', 'socket', '_sock', '_socket'):
+                            out.append((rel, '.'.join(sc), d))
+                walk(ch, sc)
+        walk(tree, [])
+    return sorted(out)
